@@ -242,3 +242,60 @@ def run(P, C, tier):
              "if it still finds its room there (task conditional=%s, cleanup takes=%s)" % (task_conditional, cleanup_takes))
     except mir.MissingAnchor as e:
         C.anchor_missing("R3", "LocalPeerService::start", e)
+    r4_reply_channel(P, C)
+
+
+def r4_reply_channel(P, C):
+    C.rule("R4", "every requested room is granted to the connection that asked for it: on every path of the RequestLock arm the request's reply channel is stored in the "
+                 "circuit's pending entry (a new entry, or the existing entry's channel replaced) before grants are attempted -- an entry that keeps the channel of "
+                 "an earlier, possibly ended, connection of the same circuit sends the grants of the living connection into a closed channel and drops them")
+    start = None
+    for b in P.find(r"RoomLockService::start::\{closure#0\}$"):
+        start = b
+    if start is None:
+        C.anchor_missing("R4", "RoomLockService::start", mir.MissingAnchor("service loop of the lock service not found"))
+        return
+    b = start
+    C.saw(b)
+    # arm entry: the RequestLock edge of the match on the received message
+    arm = None
+    for sb in sorted(b.live_blocks()):
+        t = b.blocks[sb]["t"]
+        if t["k"] != "switch":
+            continue
+        term = b.switch_term(sb, expand_vars=True)
+        if term[0] == "discr" and term[2].endswith("SyncLockMessage"):
+            table = dict(term[3])
+            for v, tg in t["targets"]:
+                if table.get(v) == "RequestLock":
+                    arm = tg
+            if arm is None and "RequestLock" in table.values() and len(table) == 2:
+                arm = t["otherwise"]
+    grants = [bi for bi, t in b.calls_to(r"RoomLockService::acquire_lock$")]
+    if arm is None or not grants:
+        C.ob("R4", "reply-channel-stored-on-every-path", False, b.loc(), "RequestLock arm or grant attempts not found (arm=%s, grants=%d)" % (arm, len(grants)))
+        return
+    in_arm = [g for g in grants if g in b.reachable(arm, avoid_blocks=set())]
+    # the stores of the reply channel: `<entry>.reply = <payload>` or a PeerLockRequest literal carrying the payload
+    stores = set()
+    for bi in b.live_blocks():
+        for si, st in enumerate(b.blocks[bi]["s"]):
+            rv = st["rv"]
+            t = None
+            if st["lhs"][-1:] == [".reply"] and len(st["lhs"]) > 1:
+                t = b.def_term(bi, si, rv, 0, expand_vars=True)
+            elif rv["r"] == "aggr" and (rv.get("adt") or "").endswith("PeerLockRequest"):
+                lit = b.def_term(bi, si, rv, 0, expand_vars=True)
+                for fname, op in zip(lit[5], lit[4]):
+                    if fname == "reply":
+                        t = op
+            if t is None:
+                continue
+            # the stored value is the message's channel (payload of the RequestLock variant)
+            if any(s[0] == "downcast" and s[2] == "RequestLock" for s in mir.subterms(t)) or "UnboundedSender" in b.root_type(mir.strip(t)):
+                stores.add(bi)
+    first_grant = [g for g in in_arm]
+    r = b.reachable(arm, avoid_blocks=stores)
+    missed = [g for g in first_grant if g in r]
+    C.ob("R4", "reply-channel-stored-on-every-path", bool(stores) and bool(first_grant) and not missed, b.loc(arm),
+         "%d store site(s) of the reply channel; grant attempts reachable in the RequestLock arm without passing one: %s" % (len(stores), [b.loc(g) for g in missed] or "none"))
